@@ -198,11 +198,11 @@ TOOL = 4
 
 
 def monitor_on():
-    if _MON["on"]:
+    if _MON["on"] and sys.monitoring.get_tool(TOOL) == "verif-inlineloop":
         return
     I = impl()
     mon = sys.monitoring
-    mon.use_tool_id(TOOL, "verif-inlineloop")
+    vlib.claim_tool(TOOL, "verif-inlineloop")
     code = I["step_code"]
 
     def on_start(c, off):
@@ -487,7 +487,7 @@ LEAF = {"para": "paragraph", "setext": "setext", "atx": "atx", "fcode-block": "f
 
 def harvest_on():
     """wrap process_inline_text_block and watch `__process_next_coalesce_item` (which branch is taken for which token)"""
-    if _HARV["on"]:
+    if _HARV["on"] and sys.monitoring.get_tool(3) == "verif-inlineloop-dispatch":
         return
     I = impl()
     monitor_on()
@@ -497,7 +497,7 @@ def harvest_on():
     codes = {IP.__dict__["_InlineProcessor" + k].__func__.__code__: v for k, v in names.items()}
     item = IP.__dict__["_InlineProcessor__process_next_coalesce_item"].__func__.__code__
     mon = sys.monitoring
-    mon.use_tool_id(3, "verif-inlineloop-dispatch")
+    vlib.claim_tool(3, "verif-inlineloop-dispatch")
 
     def on_start(c, off):
         if not _HARV["on"]:
@@ -590,10 +590,10 @@ def cov_codes():
 
 
 def coverage_on():
-    if COV["on"]:
+    if COV["on"] and sys.monitoring.get_tool(5) == "verif-inlineloop-cov":
         return
     mon = sys.monitoring
-    mon.use_tool_id(5, "verif-inlineloop-cov")
+    vlib.claim_tool(5, "verif-inlineloop-cov")
     codes = cov_codes()
 
     def on_line(c, line):
